@@ -123,24 +123,64 @@ def values(kind, role):
     raise KeyError(kind)
 
 
+class Recorder:
+    """stand-in for the report inside a worker process: records the calls, the parent replays them"""
+    def __init__(self):
+        self.log = []
+        self.info = {}
+
+    def ok(self, *a, **kw):
+        self.log.append(("ok", a, kw))
+
+    def bad(self, *a, **kw):
+        self.log.append(("bad", a, kw))
+
+
+_CTX = {}
+
+
+def _work(job):
+    name, a, b = job
+    F, D, ref = _CTX["F"], _CTX[name][0], _CTX[name][1]
+    inst, fn = D.impl_instance(a, b)
+    rec = Recorder()
+    res = tabulate(rec, F, D, inst, fn, "%s:%s-%s" % (name, a, b), a, b, ref)
+    return name, res, rec.log, rec.info
+
+
 def run(rep, F, D_int, D_con, tier):
+    import multiprocessing as mp
+    import os
     rep.rule("R2.7", "every loop-free Intersects / Contains impl between Coord, Point, Line, Rect, Triangle: the MIR decision table agrees with the exact "
                      "reference for convex sets on every witness of the catalogue (a new kernel is tabulated too)")
-    for name, D, ref in (("intersects", D_int, ref_intersects), ("contains", D_con, ref_contains)):
-        done = 0
+    jobs = []
+    _CTX.update({"F": F, "intersects": (D_int, ref_intersects), "contains": (D_con, ref_contains)})
+    for name, D in (("intersects", D_int), ("contains", D_con)):
         for a in SMALL:
             for b in SMALL:
                 inst, fn = D.impl_instance(a, b)
                 if fn is None:
                     continue
-                s = D.summarise(inst, fn)
-                if s.cls == "relate":
+                if D.summarise(inst, fn).cls == "relate":
                     continue
-                key = "%s:%s-%s" % (name, a, b)
-                res = tabulate(rep, F, D, inst, fn, key, a, b, ref)
-                if res:
-                    done += 1
-        rep.floor("R2.7", "%s pairs tabulated" % name, done, TABULATED[name])
+                jobs.append((name, a, b))
+    done = {"intersects": 0, "contains": 0}
+    nproc = min(len(jobs), max(1, (os.cpu_count() or 2) - 1), 12)
+    try:
+        ctx = mp.get_context("fork")
+        with ctx.Pool(nproc) as pool:
+            results = pool.map(_work, jobs, chunksize=1)
+    except (OSError, ValueError):
+        results = [_work(j) for j in jobs]
+    for name, res, log, info in results:
+        if res:
+            done[name] += 1
+        for kind, a, kw in log:
+            getattr(rep, kind)(*a, **kw)
+        for k, v in info.items():
+            rep.info.setdefault(k, []).extend(v)
+    for name in ("intersects", "contains"):
+        rep.floor("R2.7", "%s pairs tabulated" % name, done[name], TABULATED[name])
 
 
 def tabulate(rep, F, D, inst, fn, key, a, b, ref):
